@@ -21,10 +21,10 @@ TECHNIQUE = ("schedule enumeration at the sender seam (the only place where the 
              "parks on a future and a driver releases, answers or drops pending requests one at a time following a choice "
              "sequence; DFS enumerates ALL schedules for small operation sets, Hypothesis draws choice sequences for larger ones; "
              "oracle = each operation's outcome equals its outcome when run alone on a fresh client and agent")
-RULE = ("case = 2..6 operations from {get, multiget, getnext, walk, bulkwalk, table, set, a get the agent refuses with an error-status and no bindings} on one client or spread over two clients "
+RULE = ("case = 2..6 operations from {get, multiget, getnext, walk, bulkwalk, table, set, a get the agent refuses with an error-status and no bindings} on one client or spread over two clients (talking to one engine, or to two engines behind one address on different ports) "
         "of one loop x protocol {v2c, SNMPv3 authPriv / authNoPriv, first use concurrent} x a stepping wall clock (request ids "
         "differ between operations) x schedule = sequence of (pending request, answer | drop) choices with <= 1 (DFS) or <= 2 "
-        "dropped datagrams per operation (the sender honours the retries it is handed, as send_udp does); non-trivial = >= 2 "
+        "dropped datagrams per operation, optionally one restart of the engine and answers computed early but delivered late (the sender honours the retries it is handed, as send_udp does); non-trivial = >= 2 "
         "operations have requests pending at the same time and the release order differs from issue order or a datagram is "
         "dropped; distinct = the schedule actually taken")
 ASSUMPTIONS = [
@@ -115,8 +115,16 @@ def run_schedule(case, choices, drops_per_op):
     users = [vworld.agent_user(p) for p in protos if p["v"] == "3"]
     agent = vagent.Agent(db, users=users, request_cap=400)
     agent.respond_hook = _refuse
-    sched = Sched([agent])
-    clients = [vworld.Client("192.0.2.1", vworld.creds(p), sender=sched.sender_for(i)) for i, p in enumerate(protos)]
+    agents = [agent] * len(protos)
+    if case.get("two_agents") and nclients == 2:
+        # the second client talks to ANOTHER engine that happens to share the address (another port: a second agent on the
+        # host, a NAT, a test bed): what the first client learned about its engine is nothing to the second
+        other = vagent.Agent(db, users=users, request_cap=400, engine_id=b"\x80\x00\x1f\x88\x80second-agent", boots=11)
+        other.respond_hook = _refuse
+        agents = [agent, other]
+    sched = Sched(agents)
+    clients = [vworld.Client("192.0.2.1", vworld.creds(p), sender=sched.sender_for(i), port=161 + 1000 * i * bool(case.get("two_agents")))
+               for i, p in enumerate(protos)]
     info = dict(branch=[], taken=[], reordered=False, dropped=0, deadlock=False)
     outcomes = [None] * len(ops)
 
@@ -162,6 +170,11 @@ def run_schedule(case, choices, drops_per_op):
                 break
             options = [(j, "answer") for j in range(len(sched.pending))]
             options += [(j, "drop") for j, p in enumerate(sched.pending) if p["op"] is not None and drops[p["op"]] < drops_per_op]
+            if case.get("stale", 0) > info.get("stale_n", 0):
+                # the agent answers NOW, the answer stays in the network and is delivered when the request is released later
+                options += [(j, "answer_now_deliver_later") for j, p in enumerate(sched.pending) if "pre" not in p]
+            if case.get("reboots", 0) > info.get("reboots_n", 0):
+                options += [(-1, "reboot")]
             if case.get("cancels", 0) > info.get("cancelled_n", 0) and len({p["op"] for p in sched.pending}) >= 2:
                 # the caller of one operation gives up (its task is cancelled) while others are in flight
                 options += [(j, "cancel") for j in range(len(sched.pending))]
@@ -171,6 +184,21 @@ def run_schedule(case, choices, drops_per_op):
             info["taken"].append(c)
             step += 1
             j, action = options[c]
+            if action == "reboot":
+                info["reboots_n"] = info.get("reboots_n", 0) + 1
+                for a in dict.fromkeys(map(id, agents)):
+                    next(x for x in agents if id(x) == a).reboot()
+                continue
+            if action == "answer_now_deliver_later":
+                info["stale_n"] = info.get("stale_n", 0) + 1
+                q = sched.pending[j]
+                try:
+                    q["pre"] = ("ok", agents[q["client"]].handle(q["data"], timeout=q["timeout"], retries=q["retries"]))
+                except vagent.Silent as e:
+                    q["pre"] = ("silent", e)
+                except vagent.AgentInternalError as e:
+                    q["pre"] = ("err", e)
+                continue
             if action == "answer" and issue_order[id(sched.pending[j])] != min(issue_order[id(p)] for p in sched.pending):
                 info["reordered"] = True
             p = sched.pending[j]
@@ -191,7 +219,13 @@ def run_schedule(case, choices, drops_per_op):
                 continue
             sched.pending.pop(j)
             try:
-                p["fut"].set_result(agent.handle(p["data"], timeout=p["timeout"], retries=p["retries"]))
+                if "pre" in p:
+                    kind, val = p["pre"]
+                    if kind == "ok":
+                        p["fut"].set_result(val)
+                        continue
+                    raise val
+                p["fut"].set_result(agents[p["client"]].handle(p["data"], timeout=p["timeout"], retries=p["retries"]))
             except vagent.Silent as e:
                 p["fut"].set_exception(Timeout("the agent does not answer: %s" % e))
             except vagent.AgentInternalError as e:
@@ -208,6 +242,7 @@ def run_schedule(case, choices, drops_per_op):
         vworld.run(drive())
     info["max_parallel"] = sched.max_parallel_ops
     info["agent"] = agent
+    info["logs"] = [r for a in dict.fromkeys(map(id, agents)) for r in next(x for x in agents if id(x) == a).log]
     return outcomes, info
 
 
@@ -252,7 +287,17 @@ def judge(case, outcomes, info) -> Result:
     if info.get("task_error"):
         return Result("%s: %s" % (head, info["task_error"]), nontrivial, classes, key=key)
     agent = info["agent"]
-    for r in agent.log:
+    if case.get("two_agents"):
+        classes.append("two_engines_one_address")
+    if info.get("reboots_n"):
+        classes.append("engine_restarts")
+    if info.get("stale_n"):
+        classes.append("answer_delayed_in_network")
+    if info.get("reboots_n") and info.get("stale_n"):
+        classes.append("restart_and_delayed_answer")
+    for r in info["logs"]:
+        if info.get("reboots_n") and r.get("verdict") == "notInTimeWindow":
+            continue        # unavoidable for requests on their way when the engine restarted; the results are judged below
         if r.get("version") == 3 and not r.get("discovery") and r.get("verdict") != "accepted":
             return Result("%s: the agent answered %s to a request (mixed-up users / keys / engine data?)" % (head, r.get("verdict")),
                           nontrivial, classes, key=key)
@@ -339,6 +384,14 @@ def groups_for(tier):
             out.append(dict(proto=p, clients=1, ops=[[0, FIXED[a]], [0, FIXED[b]]], clock_inc=0.4))
         out.append(dict(proto=p, proto2=vworld.V3_PROTOS[1] if p["v"] == "3" else {"v": "2c", "community": "public"},
                         clients=2, ops=[[0, "get"], [1, "walk"]], clock_inc=0.4))
+        if p["v"] == "3":
+            # the engine restarts while two operations of one client are in flight and one answer is delayed in the network
+            out.append(dict(proto=p, clients=1, ops=[[0, "get"], [0, "get"]], clock_inc=0.4, reboots=1, stale=1))
+            out.append(dict(proto=p, clients=1, ops=[[0, "get"], [0, "getnext"]], clock_inc=0.4, reboots=1, stale=2))
+        # two engines behind one address (second client on another port), same and different users
+        out.append(dict(proto=p, proto2=p, clients=2, two_agents=True, ops=[[0, "walk"], [1, "get"]], clock_inc=0.4))
+        out.append(dict(proto=p, proto2=vworld.V3_PROTOS[1] if p["v"] == "3" else {"v": "2c", "community": "public"},
+                        clients=2, two_agents=True, ops=[[0, "get"], [1, "get"], [0, "getnext"]], clock_inc=0.4))
         if p["v"] == "3" and p is vworld.V3_PROTOS[3]:
             out.append(dict(proto=SHARED_SECRET_USERS[0], proto2=SHARED_SECRET_USERS[1], clients=2, ops=[[0, "get"], [1, "get"]], clock_inc=0.4))
             out.append(dict(proto=SHARED_SECRET_USERS[1], proto2=SHARED_SECRET_USERS[0], clients=2, ops=[[0, "walk"], [1, "get"]], clock_inc=0.4))
@@ -369,6 +422,7 @@ def cases(draw):
     case = dict(proto=proto, clients=nclients, clock_inc=draw(st.sampled_from([0, 0.4, 1.0, 1.7])),
                 clock=draw(st.sampled_from([1_700_000_000, 5, 2 ** 31 - 10 ** 6])), drops_per_op=2)
     if nclients == 2:
+        case["two_agents"] = draw(st.sampled_from([False, False, True]))
         case["proto2"] = draw(st.sampled_from([p for p in [vworld.V2C_PROTO] + vworld.V3_PROTOS[1:] + SHARED_SECRET_USERS if p["v"] == proto["v"]]))
         if proto["v"] == "3" and draw(st.booleans()):
             case["proto"], case["proto2"] = SHARED_SECRET_USERS
@@ -376,6 +430,10 @@ def cases(draw):
     case["ops"] = [[draw(st.integers(0, nclients - 1)), draw(st.sampled_from(OPNAMES))] for _ in range(n)]
     case["choices"] = draw(st.lists(st.integers(0, 17), min_size=0, max_size=40))
     case["cancels"] = draw(st.sampled_from([0, 0, 1]))
+    if proto["v"] == "3" and draw(st.integers(0, 3)) == 0:
+        case["reboots"] = 1
+        case["stale"] = draw(st.sampled_from([0, 1, 2]))
+        case["cancels"] = 0
     return case
 
 
